@@ -112,8 +112,9 @@ def dds_hash(x: Any) -> PyHash:
         if isinstance(elt, int):
             if -(2 ** 31) <= elt < 2 ** 31:
                 return _algo_bytes(struct.pack("!l", elt))
-            # Integers of any size are accepted: beyond 32 bits, use the decimal representation.
-            return _algo_bytes(b"__DDS_INT__" + str(elt).encode("utf-8"))
+            # Integers of any size are accepted: beyond 32 bits, use the hexadecimal representation
+            # (the conversion to decimal is limited to a few thousand digits in recent interpreters).
+            return _algo_bytes(b"__DDS_INT__" + format(elt, "x").encode("utf-8"))
         if isinstance(elt, CanonicalPath):
             return _algo_str(repr(elt))
         if isinstance(elt, list):
